@@ -42,6 +42,7 @@ type Ctx struct {
 	// lazily computed
 	cg       *CallGraph
 	im       *immut
+	lockSum  map[*ssa.Function]*lockSummary
 	postdoms map[*ssa.Function]*postDom
 }
 
